@@ -1285,6 +1285,14 @@ func (p *PairV2) AddLastSwapStepWithOrders(amount0In, amount1Out *big.Int, buy b
 	}
 
 	p.lockOrders.Lock()
+	// the calculations below panic on inconsistent input (e.g. an API estimate racing a trade): the
+	// order lock of the live pair must not stay taken then
+	locked := true
+	defer func() {
+		if locked {
+			p.lockOrders.Unlock()
+		}
+	}()
 
 	var orders []*Limit
 	if buy {
@@ -1425,6 +1433,7 @@ func (p *PairV2) AddLastSwapStepWithOrders(amount0In, amount1Out *big.Int, buy b
 	}
 
 	p.lockOrders.Unlock()
+	locked = false
 
 	pair.updateOrders(oo)
 
